@@ -53,6 +53,13 @@ var c15Left = []c15Neighbor{
 	{name: "msg-open", tag: "{msg desc=\"d\"}", post: "{/msg}"},
 	{name: "css", tag: "{css k}", out: "k"},
 	{name: "tab-char", tag: "{\\t}", out: "\t"},
+	// a comment as the last thing before the tag that closes a block which is not rendered: the text run after that tag
+	// touches no comment and is judged exactly
+	{name: "block-ending-in-line-comment", tag: "{if not $ij.x}a // c\n{/if}"},
+	{name: "block-ending-in-block-comment", tag: "{if not $ij.x}a /* c */{/if}"},
+	{name: "else-ending-in-line-comment", tag: "{if $ij.x}{else}a // c\n{/if}"},
+	{name: "case-ending-in-line-comment", tag: "{switch 1}{case 2}a // c\n{/switch}"},
+	{name: "comment-only-block", tag: "{if not $ij.x} // c\n{/if}"},
 }
 
 // right neighbours: tag comes after the text; pre opens a structure before the left neighbour
@@ -67,6 +74,8 @@ var c15Right = []c15Neighbor{
 	{name: "call", tag: "{call .u /}", out: "U"},
 	{name: "msg-close", pre: "{msg desc=\"d\"}", tag: "{/msg}"},
 	{name: "newline-char", tag: "{\\n}", out: "\n"},
+	{name: "block-starting-with-line-comment", tag: "{if not $ij.x} // c\na{/if}"},
+	{name: "block-starting-with-block-comment", tag: "{if not $ij.x}/* c */a{/if}"},
 }
 
 func c15Template(name, t string, l, r c15Neighbor) (src, want string) {
@@ -102,7 +111,7 @@ func init() {
 	fw.Register(&fw.Prop{
 		ID:    "C15",
 		Level: "exploration",
-		Rule: "exhaustive: every string of length <= 5 (thorough 7) over {a < > space tab CR LF é} as a text run, neighbour pair rotating over 11 left x 10 right neighbour kinds; every string of " +
+		Rule: "exhaustive: every string of length <= 5 (thorough 7) over {a < > space tab CR LF é} as a text run, neighbour pair rotating over 16 left x 12 right neighbour kinds (five / two of them blocks that are not rendered and begin or end with a comment); every string of " +
 			"length <= 3 (thorough 4) between every neighbour pair; seeded longer runs with 中 and 😀; 25 comment placements (output compared modulo whitespace). " +
 			"Oracle: the line-joining rule (ref.RawText). A case is a batch of 200 templates compiled together. distinct = distinct (text run, neighbour pair); non-trivial = run contains whitespace",
 		N: func(tier string) int {
